@@ -120,6 +120,7 @@ struct Thread {
     int held_excl, held_shared;
     uint64_t n_block, n_yield, n_steps;
     int64_t tb_max_ns, tb_latest_deadline;
+    uint64_t cond_reacquire_step;
     bool forbid_block;
     const char* forbid_cls;
     uint32_t dec_count[D_NKINDS];
